@@ -57,6 +57,10 @@ Inductive case :=
      one): per validation its shape in processing order (ModelN3.v); per validation the verdict 0 ok / 1 work error of
      [kind] / 2 ordinary failure; the ledger's NSEC3-hash counter, exhaustion bit, first rejection *)
 | CaseN3 (mode H : N) (um : bool) (proofs : list n3proof) (verdicts : list (N * N)) (hashes exh first : N)
+  (* the same observation with the record sets themselves (wave 9): per validation the question type, the usable NSEC3
+     records (owner / next digest, Opt-Out, type bitmap) and the suffix chain with each name's digest; what each lookup finds
+     is computed by the model (ring_look: the translated aggressiveNSEC3Covers and typesSet) *)
+| CaseN3R (mode H : N) (um : bool) (proofs : list n3rproof) (verdicts : list (N * N)) (hashes exh first : N)
   (* the forwarder against scripted upstreams, one behaviour per configured upstream in order — 0: answers; 1: TC=1 over
      UDP, answers over TCP; 2: TC=1 over UDP, SERVFAIL over TCP; 3: SERVFAIL —: datagrams + TCP queries the upstreams
      received, the ledger's outbound counter, the reply (0 answer / 1 policy SERVFAIL with the work EDE / 2 plain SERVFAIL) *)
@@ -155,6 +159,7 @@ Definition check_case (c : case) : bool :=
   | CaseDS mode K D dsl korder ordered verdict ekind matched digests exh first =>
       ds_check mode K D dsl korder ordered verdict ekind matched digests exh first
   | CaseN3 mode H um proofs verdicts hashes exh first => n3_check mode H um proofs verdicts hashes exh first
+  | CaseN3R mode H um proofs verdicts hashes exh first => n3r_check mode H um proofs verdicts hashes exh first
   | CaseFwd mode max_out script packets led_out reply =>
       (* the forwarder is sequential: the model computes exactly what the upstreams received and what the client got *)
       let pol := mk_T_RecursionWorkPolicy mode max_out 32 4 8 32 32 32 32 in
@@ -263,6 +268,7 @@ Definition spec_case (c : case) : bool :=
                         | _ => true
                         end) evs
   | CaseN3 mode H um proofs verdicts hashes exh first => n3_spec mode H um proofs verdicts hashes exh first
+  | CaseN3R mode H um proofs verdicts hashes exh first => n3r_spec mode H um proofs verdicts hashes exh first
   | CaseFwd mode max_out script packets led_out reply =>
       (* at most two transport attempts per upstream; enforce: never more than the outbound budget, and a request that ran
          into it is answered with the policy SERVFAIL; shadow / off: the budget changes nothing *)
